@@ -92,6 +92,10 @@ def gen_forecasts(rng, it, tier):
     kind = kinds[it % len(kinds)]
     n = int(rng.integers(2, 41 if tier == "thorough" else 25))
     m = int(rng.integers(1, 13))
+    if (it // 13) % 4 == 1:
+        n = [2, 3, 4][it % 3]                 # the smallest forecast sets
+    if (it // 13) % 4 == 2:
+        m = [2, 3, 2, 12][it % 4]
     tags = []
     if kind == "m1":
         m = 1
